@@ -15,7 +15,7 @@ import os
 
 from ..frontend import VERIF, AnalysisBroken
 from ..model import qt, loc_str, walk, inner
-from ..expr import canon, pretty, children, strip, callee_info, subterms
+from ..expr import member_decl, canon, pretty, children, strip, callee_info, subterms
 from ..cfg import cfg_of
 from ..tables import Evaluator, Lin, EnumVal, OutsideFragment, Abort
 from .common import CQ, short, for_loop_info, loop_has_early_exit, expand_locals, field_writes
@@ -61,8 +61,19 @@ def make_evaluator(ctx, orient_val):
     def hook_pincell(ev, args, node, env):
         return Lin.sym("cell")
 
+    def hook_member(ev, e, env, depth):
+        d = member_decl(e)
+        if d is not None and d.get("kind") == "FieldDecl" and (d.get("_q") or "").split("::")[-1] in SYMS:
+            return ("fieldref", d.get("_q").split("::")[-1])
+        raise OutsideFragment("MemberExpr at line %s" % (e.get("range", {}).get("begin", {}).get("line")))
+
     def hook_subscript(ev, ci, node, env, depth):
         oc = canon(ci["obj"])
+        if not (oc[0] == "field" and oc[2] == ("this",)):
+            # a local reference bound to one of the per-pin / per-cell arrays
+            v = ev.expr(ci["obj"], env, depth)
+            if isinstance(v, tuple) and v and v[0] == "fieldref":
+                oc = ("field", CQ + "Circuit::" + v[1], ("this",))
         if oc[0] == "field" and oc[2] == ("this",):
             name = oc[1].split("::")[-1]
             if name in SYMS:
@@ -88,7 +99,7 @@ def make_evaluator(ctx, orient_val):
         raise OutsideFragment("subscript of %s" % pretty(oc))
 
     hooks = {CQ + "Circuit::orientation": hook_orientation, CQ + "Circuit::pinCell": hook_pincell,
-             "subscript": hook_subscript}
+             "subscript": hook_subscript, "member": hook_member}
     return Evaluator(prog, hooks)
 
 
@@ -434,12 +445,14 @@ def check_r5(ctx, rep):
     else:
         rep.holds("R5", store[0], r, "netMinMaxPos_[net] and value_ are both updated unconditionally")
     # value_ += (new.second - new.first) - (old.second - old.first)
-    rhs = expand_locals(ctx, r, canon(children(inc[0])[1]))
+    from .common import inline_getters
+    rhs = inline_getters(ctx, expand_locals(ctx, r, canon(children(inc[0])[1])))
     new = ("call", CQ + "IncrNetModel::computeNetMinMaxPos", ("this",), nv)
     old = ("index", ("field", CQ + "IncrNetModel::netMinMaxPos_", ("this",)), nv)
+    hi, lo = _bound_fields(ctx, prog)
     def ext(p):
-        return ("bin", "-", ("field", "second", p), ("field", "first", p))
-    if rhs == ("bin", "-", ext(new), ext(old)):
+        return ("bin", "-", ("field", hi, p), ("field", lo, p))
+    if hi is not None and rhs == ("bin", "-", ext(new), ext(old)):
         # the old bound must be read before it is overwritten
         olds = [x for x in walk(r.body) if x.get("kind") == "VarDecl" and children(x) and canon(children(x)[-1]) == old]
         sn = gr.node_for(store[0])
@@ -451,6 +464,37 @@ def check_r5(ctx, rep):
     else:
         rep.violation("R5", inc[0], r, "value_ increment is %s" % pretty(rhs), "expected (new max - new min) - (old max - old min)",
                       key="IncrNetModel::recomputeNet|wrong value increment")
+
+
+def _bound_fields(ctx, prog):
+    """(name of the member holding the maximum, name of the member holding the minimum) of what computeNetMinMaxPos(net) returns:
+    read off its return statement - make_pair(lo, hi) gives (second, first); a struct whose members are assigned gives their
+    names - where hi is the local updated with std::max and lo the one updated with std::min."""
+    fs = [f for f in prog.func(CQ + "IncrNetModel::computeNetMinMaxPos") if len(f.params) == 1]
+    if len(fs) != 1:
+        return None, None
+    f = fs[0]
+    role = {}
+    for x in walk(f.body):
+        if x.get("kind") == "BinaryOperator" and x.get("opcode") == "=":
+            l, r = canon(children(x)[0]), canon(children(x)[1])
+            if l[0] == "var" and r[0] == "call" and r[1] in ("min", "max") and l in r[3:]:
+                role[l[:2]] = r[1]
+    fields = {}
+    for x in walk(f.body):
+        if x.get("kind") == "ReturnStmt" and children(x):
+            c = canon(children(x)[0])
+            while c[0] == "construct" and len(c) == 3:
+                c = c[2]
+            if c[0] == "call" and c[1] == "make_pair" and len(c) >= 5:
+                for fld, a in (("first", c[3]), ("second", c[4])):
+                    if a[0] == "var" and a[:2] in role:
+                        fields[role[a[:2]]] = fld
+        if x.get("kind") == "BinaryOperator" and x.get("opcode") == "=":
+            l, r = canon(children(x)[0]), canon(children(x)[1])
+            if l[0] == "field" and l[2][0] == "var" and r[0] == "var" and r[:2] in role:
+                fields[role[r[:2]]] = l[1]
+    return fields.get("max"), fields.get("min")
 
 
 def _is_store_to(c, target):
@@ -467,8 +511,12 @@ def check_tp(ctx, rep):
     prog = ctx.prog
     for q, ax, other in (("IncrNetModel::xTopology", "X", "Y"), ("IncrNetModel::yTopology", "Y", "X"),
                          ("NetModel::xTopology", "X", "Y"), ("NetModel::yTopology", "Y", "X")):
-        for f in prog.func(CQ + q):
-            calls = [callee_info(x)["qname"] for x in walk(f.body) if x.get("kind") == "CXXMemberCallExpr"]
+        for f0 in prog.func(CQ + q):
+            from .common import forwarding_target, is_dead_under
+            f, env = forwarding_target(ctx, f0)
+            calls = [callee_info(x)["qname"] for x in walk(f.body) if x.get("kind") == "CXXMemberCallExpr" and not is_dead_under(x, f, env)]
+            if f is not f0:
+                f = f0 if not calls else f
             wrong = [c for c in calls if c in (CQ + "Circuit::pin%sOffset" % other, CQ + "Circuit::%s" % other.lower(),
                                                CQ + "Circuit::placed%s" % ("Width" if other == "X" else "Height"))]
             right = [c for c in calls if c in (CQ + "Circuit::pin%sOffset" % ax, CQ + "Circuit::%s" % ax.lower())]
